@@ -1,6 +1,7 @@
 import RexModel.Gen.Async
 import RexModel.Async.Records
 import RexModel.Async.Chain
+import RexModel.Props.FieldTime
 import Mathlib.Algebra.Order.Field.Basic
 import Mathlib.Tactic.Linarith
 import Mathlib.Tactic.Ring
@@ -137,12 +138,7 @@ theorem arrival_ge (rnd : α → α) (hm : Monotone rnd) (sent delay prev : α) 
   simp only [recv_sc]
   exact hm (le_trans (by linarith) (le_max_left _ _))
 
-/-- an ordered field with a rounding function and a floor division is a time carrier of the asynchronous machine -/
-@[reducible] def fieldTime (α : Type) [Field α] [LinearOrder α] (rnd : α → α) (fdiv : α → α → Int) : Rex.Async.TimeLike α :=
-  { toAdd := inferInstance, toSub := inferInstance, toMul := inferInstance, toDiv := inferInstance, toNeg := inferInstance,
-    toLT := inferInstance, toLE := inferInstance, toBEq := inferInstance, toMax := inferInstance, toMin := inferInstance,
-    toNatCast := inferInstance, toIntCast := inferInstance, toFloorDiv := ⟨fdiv⟩,
-    decLt := inferInstance, decLe := inferInstance, rnd := rnd }
+open Rex.FieldTime
 
 /-- **The start law holds for every recorded step, under every schedule** (machine level): in every state the asynchronous machine
 can reach — any graph, delay streams, step functions, thread interleaving — each recorded step started at the latest of its
@@ -274,6 +270,32 @@ theorem C04_shift_monotone (rnd : α → α) (fdiv : α → α → Int) :
     exact le_add_of_nonneg_right (le_max_left _ _)
   · intro h0
     rw [hd]; simp only [h0, if_false]
+
+/-- **The arrival law holds for every recorded message, under every schedule** (machine level): in every state the asynchronous
+machine can reach, reading the consumed-message record of a connection in order, the receive times are exactly the arrival
+recurrence over the recorded send times and the connection's sampled delays,
+`recv_k = rnd (max (sent_k + delay_k) recv_{k-1})` with `recv_{-1} = 0` — although the receive time is computed in one handler
+(`push_ts_input`, from the announced end time), carried as a delay `recv − sent`, and re-assembled in another (`push_zip`, from the
+message's own send time), by three different threads. Needs only that rounding is idempotent. -/
+theorem C04_recorded_arrivals_obey_law (rnd : α → α) (fdiv : α → α → Int) (hidem : ∀ x, rnd (rnd x) = rnd x) :
+    letI := fieldTime α rnd fdiv
+    ∀ (cfg : Rex.Async.Cfg α) (c : Nat) (cc : Rex.Async.ConnCfg α), cfg.conn c = some cc → Rex.Async.WFConn cfg c →
+    ∀ (σ : List Rex.Async.Rule) (s : Rex.Async.MSt α),
+      Rex.Conf.Run (Rex.Async.machine cfg).toNet.sys (Rex.Async.initState cfg) σ s →
+      (s.q (.conn c .record)).filterMap Rex.Async.recvRec
+        = Rex.Async.recvChain cc.commDelay 0 0 ((s.q (.conn c .record)).filterMap Rex.Async.sentRec) := by
+  letI := fieldTime α rnd fdiv
+  intro cfg c cc hcc hwf σ s hrun
+  have hi := Rex.Async.arrInv_run cfg c cc hcc hwf hrun (Rex.Async.arrInv_init cfg c cc)
+  have h1 := Rex.Async.recorded_recv (s.q (.conn c .record)) hi.wfR
+  have h2 := hi.recorded_delays
+  have h2' : (s.q (.conn c .record)).filterMap Rex.Async.delayRec
+      = List.zipWith delay_sc (Rex.Async.recvChain cc.commDelay 0 Rex.Async.zeroT ((s.q (.conn c .record)).filterMap Rex.Async.sentRec))
+          ((s.q (.conn c .record)).filterMap Rex.Async.sentRec) := h2
+  rw [h1, h2']
+  have hz : (Rex.Async.zeroT : α) = 0 := by simp [Rex.Async.zeroT]
+  rw [hz]
+  exact zip_of_delay rnd fdiv hidem cc.commDelay _ 0 0
 
 -- non-vacuity of the hypotheses used above
 example : (0 : ℚ) ≤ 1 / 10 ∧ ((3 : ℚ) / 100 ≤ max (1 / 10 + 0) (2 / 100)) := by
